@@ -9,7 +9,7 @@ PID = "C03"
 LEVEL = "proof"
 MODULE = "Sigc.Props.C03"
 EXTRA_MODULES = ("Sigc.Props.Refine", "Sigc.Props.SpecK", "Sigc.Props.SpecProps",)   # refinement P ⊑ S', S' ≡ S on runs clear of the known findings, the statements read off S
-REQUIRED = ["Sigc.C03.safe", "Sigc.C03.safe_inside", "Sigc.C03.frame", "Sigc.C03.frame_spelled_out", "Sigc.C03.emit_restores_exec", "Sigc.C03.quiescent_clean", "Sigc.C03.inv_reachable", "Sigc.Refine.refines", "Sigc.SpecK.model_refines_pure_spec"]
+REQUIRED = ["Sigc.C03.safe", "Sigc.C03.safe_inside", "Sigc.C03.frame", "Sigc.C03.frame_spelled_out", "Sigc.C03.emit_restores_exec", "Sigc.C03.quiescent_clean", "Sigc.C03.inv_reachable", "Sigc.C03.owned_not_pinned", "Sigc.Refine.refines", "Sigc.SpecK.model_refines_pure_spec"]
 TRUSTED = rt.TRUSTED_RT
 ASSUMPTIONS = rt.ASSUMPTIONS_RT + []
 PARTIAL = []
@@ -19,7 +19,7 @@ N_THOROUGH = 20000
 EXPLANATION = ''
 
 def profiles(thorough):
-    p = Profile(nT=3, nS=3, nG=3, nC=8, nK=2, specs={"fn": 5, "mem": 2, "trk": 2, "trk2": 1, "bref": 1, "nest": 1, "fwd": 1, "ownT": 2, "ownK": 2},
+    p = Profile(nT=3, nS=3, nG=3, nC=8, nK=2, specs={"fn": 5, "mem": 2, "trk": 2, "trk2": 1, "bref": 1, "nest": 1, "fwd": 1, "ownT": 2, "ownK": 2, "ownG": 2},
                 body_prob=0.7, body_len=(1, 5), len=(12, 50 if not thorough else 150), maxdepth=5 if thorough else 4,
                 w={"connfn": 14, "emit": 12, "newT": 4, "newG": 4, "conn": 3, "mkS": 3, "size?": 4, "connected?": 4, "delT": 1, "delG": 1},
                 bw={"connfn": 6, "disc": 6, "clear": 2, "blockC": 3, "blockG": 1, "delT": 4, "delG": 3, "asgG": 1, "masgG": 1,
